@@ -681,6 +681,18 @@ func (r *dRun) post(s *zsim.Sim) *zsim.Violation {
 		}
 		switch r.scenario {
 		case scNormal:
+			producersReturned := true
+			for _, m := range r.msgs {
+				if m.prod != 100 && m.inv >= 0 && m.ret < 0 {
+					producersReturned = false
+				}
+			}
+			if r.closeInv > 0 && r.closeRet == 0 && s.Stuck && producersReturned {
+				// Close is blocked for good: whatever is still in the ring will never be delivered
+				if n, ids := r.missing(); n > r.alertSum {
+					return viol("C11.silent_loss", "Close is blocked forever while %d written message(s) %v are neither delivered nor reported (alerts=%d); tasks: %s", n, ids, r.alertSum, s.StuckInfo)
+				}
+			}
 			if r.closeRet == 0 || !allReturned {
 				return nil
 			}
